@@ -41,6 +41,8 @@ def oracle(ctx, budget=1, replay=None, hints=None):
         n += 1
         h = impl.new_handlers([])
         impl.run(h, ['G28', 'G1 X10 Y10 Z1 E1 F900'])
+        if ctx.rng.random() < 0.25:
+            h.state.disableExclusion('C19 oracle')          # words are acted on whether or not exclusion is switched on
         vals = {}
         parts = []
         for _k in range(ctx.rng.randint(1, 7)):
@@ -61,13 +63,54 @@ def oracle(ctx, budget=1, replay=None, hints=None):
         for l, v in want.items():
             if cur[l] != v and len(fails) < 10:
                 fails.append(dict(what='after %r the tracked %s is %r, the last value given is %r' % (cmd, l, cur[l], v), signature='C19:last-wins', case=dict(input=cmd)))
+    # the same command text several times in a row (equal steps in relative mode, a slicer's repeated lines): every one is read and acted on afresh
+    for _ in range(100 * budget):
+        n += 1
+        h = impl.new_handlers([])
+        impl.run(h, ['G28', 'G1 X10 Y10 Z1 E1 F900', 'G91'])
+        dx, dy, dz = ctx.rng.randint(-8, 8) / 4.0, ctx.rng.randint(-8, 8) / 4.0, ctx.rng.choice([0.0, 0.25, 0.5])
+        cmd = ctx.rng.choice(['G1 X%s Y%s Z%s', 'G0 X%s Y%s Z%s', 'G1 X%s Y%s Z%s F1200', 'G1 x%s y%s z%s']) % (dx, dy, dz)
+        reps = ctx.rng.randint(2, 4)
+        impl.run(h, [cmd] * reps)
+        p = h.state.position
+        got = (p.X_AXIS.current, p.Y_AXIS.current, p.Z_AXIS.current)
+        want = (10.0 + reps * dx, 10.0 + reps * dy, 1.0 + reps * dz)
+        if got != want and len(fails) < 10:
+            fails.append(dict(what='after G91 and %d times %r the tracked position is %r, the words given add up to %r' % (reps, cmd, got, want),
+                              signature='C19:repeated-command', case=dict(input=cmd, times=reps)))
+    # the words of the command that leaves a region count for what the filter sends in its place: the re-positioning moves run at the last F
+    # given (on this very command, if it has one) and end at the last X / Y given
+    from fractions import Fraction as _F
+    import reader as _reader
+    for _ in range(60 * budget):
+        n += 1
+        h = impl.new_handlers([('rect', 'a', _F(10), _F(10), _F(20), _F(20))])
+        impl.run(h, ['G28', 'G1 X5 Y5 Z0.3 F3000', 'G1 X15 Y15'])
+        f1, f2 = ctx.rng.choice([600, 1200, 4800]), ctx.rng.choice([7200, 900, 2400])
+        x, y = ctx.rng.randint(30, 60), ctx.rng.randint(30, 60)
+        cmd = ctx.rng.choice(['G0 F%d X%d Y%d F%d' % (f1, x, y, f2), 'G1 X%d Y%d F%d' % (x, y, f2), 'G0 X%d F%d Y%d' % (x, f2, y), 'G1 X1 Y1 F%d X%d Y%d' % (f2, x, y),
+                              'G1 f%d x%d y%d' % (f2, x, y)])
+        res = impl.run(h, [cmd])
+        outs = [o for o in (res[0][2] if len(res[0]) > 2 and isinstance(res[0][2], (list, tuple)) else []) if isinstance(o, str)]
+        moves = [_reader.read(o) for o in outs]
+        moves = [c for c in moves if c is not None and c.code == 'G0' and c.get('X') is not None]
+        if not moves or float(moves[-1].get('F') or 0) != float(f2) or (float(moves[-1].get('X')), float(moves[-1].get('Y'))) != (float(x), float(y)):
+            if len(fails) < 10:
+                fails.append(dict(what='leaving a region with %r the filter sent %r: the move back must run at F%d to X%d Y%d' % (cmd, outs, f2, x, y),
+                                  signature='C19:exit-words', case=dict(input=cmd)))
     # the arc handlers read their words the same way: flags anywhere, repeated letters, either case
     for _ in range(150 * budget):
         n += 1
         h = impl.new_handlers([])
-        impl.run(h, ['G28', 'G1 X10 Y10 Z1 E1 F900'])
+        inch = ctx.rng.random() < 0.4                       # a letter that is not given keeps the present coordinate, in either unit
+        um = 25.4 if inch else 1.0
+        impl.run(h, ['G28'] + (['G20'] if inch else []) + ['G1 X10 Y10 Z1 E1 F900'])
         ex, ey = ctx.rng.choice([(30.0, 10.0), (20.0, 20.0), (20.0, 0.0)])
         words = [('X', ex), ('Y', ey), ('I', 10.0), ('J', 0.0)]
+        ez = 1.0
+        if ctx.rng.random() < 0.3:
+            ez = ctx.rng.choice([2.0, 0.5, 1.25])
+            words.append(('Z', ez))
         ctx.rng.shuffle(words)
         parts = []
         for l, v in words:
@@ -79,7 +122,8 @@ def oracle(ctx, budget=1, replay=None, hints=None):
         cmd = ctx.rng.choice(['G2 ', 'G3 ', 'G02 ']) + ' '.join(parts)
         impl.run(h, [cmd])
         p = h.state.position
-        if (p.X_AXIS.current, p.Y_AXIS.current) != (ex, ey) and len(fails) < 10:
-            fails.append(dict(what='after %r the tracked position is (%r, %r), the last values given are (%r, %r)' % (cmd, p.X_AXIS.current, p.Y_AXIS.current, ex, ey),
-                              signature='C19:last-wins-arc', case=dict(input=cmd)))
+        if (p.X_AXIS.current, p.Y_AXIS.current, p.Z_AXIS.current) != (ex * um, ey * um, ez * um) and len(fails) < 10:
+            fails.append(dict(what='after %r (%s) the tracked position is (%r, %r, %r) mm, the last values given are (%r, %r, %r)'
+                              % (cmd, 'inches' if inch else 'mm', p.X_AXIS.current, p.Y_AXIS.current, p.Z_AXIS.current, ex, ey, ez),
+                              signature='C19:last-wins-arc', case=dict(input=cmd, inches=inch)))
     return dict(evaluations=n, failures=fails, samples=[WS.spell(ctx.rng, WS.rnd_words(ctx.rng)) for _ in range(3)], distribution=dict(spelled=4000 * budget, handler=600 * budget))
